@@ -878,6 +878,21 @@ func genCloneHistory(r *rand.Rand, n int, emit func(args ...string)) {
 	for _, c := range corner {
 		emit(encStr(c.text), c.ops)
 	}
+	// Everything the constant folder and the time-range splitter fold, under every read-only operation
+	// applied twice to the original and once to the clone: an operation that accumulates into a node of
+	// its receiver (round-3 seeded changes C09-2 / C14-1: duration sums folded into the left literal)
+	// shows at the second application at the latest.
+	foldable := []string{
+		"time > now() - (1h + 5m) AND host = 'a'", "time > now() - 10m + 1h", "v > 10m + 1h", "v > 1h - 5m - 3s", "(10s + 1ms500µ) < d",
+		"v > 2 * 3 + 1", "v > 2.5 * 2", "v > 10 / 4", "v > 7 % 4", "v = 6 & 3 | 8", "s = 'a' + 'b'", "b = (true AND false OR true)",
+		"time >= '2000-01-01T00:00:00Z' + 1h AND time < '2000-01-02T00:00:00Z' - 5m", "time > 1000000000 + 5s", "v > 10s / 2 AND w < 3s * 4",
+		"time > now() - 1h / 2", "'2000-01-01T00:00:00Z' - '1999-12-31T00:00:00Z' > 1h", "v > -(1h + 5m)", "v > (1 + 2) * (3 + 4)", "18446744073709551615 - 1 > u",
+	}
+	for _, cond := range foldable {
+		for _, rd := range cloneReaders {
+			emit(encStr("SELECT mean(v) FROM m WHERE "+cond+" GROUP BY time(1m + 30s)"), "o"+rd+":1,o"+rd+":1,c"+rd+":1,ostring,cstring")
+		}
+	}
 	for i := 0; i < n; i++ {
 		text := randSelectText(r, 0)
 		k := r.Intn(13)
